@@ -67,13 +67,25 @@ def worst_case(args):
             size = 1 + ctx.choice('size_batch%d' % t, maxsize)      # every batch size 1..max is explored
             batch = [Individual(_vec(ctx, args, ec.sym_vector(ctx, 'b%d_d%d' % (t, j), prob))) for j in range(size)]
             orig = {id(d): list(d.vector) for d in batch}
+            resub = []
+            if args.get('resubmit') and t >= 1 and designs:
+                # an elite design of an earlier generation is handed to the evaluator AGAIN, together with the new ones
+                resub = [designs[0][0]]
+                batch = batch + resub
             c0 = len(prob.h.ok_calls())
             f0 = prob.h.nfault
             alg.evaluate(batch)
             ncalls = len(prob.h.ok_calls()) - c0
             ctx.output('calls_batch%d' % t, ncalls)
-            ctx.check('successful-calls-per-batch=(1+2n)*new-designs', ncalls != (1 + 2 * dim) * size)
+            if resub:
+                # the design itself is not evaluated again; its neighbours may be (re-processing them is not promised
+                # either way), so only the bounds are checked
+                ctx.check('successful-calls-with-a-resubmitted-design', ncalls < (1 + 2 * dim) * size or ncalls > (1 + 2 * dim) * size + 2 * dim)
+            else:
+                ctx.check('successful-calls-per-batch=(1+2n)*new-designs', ncalls != (1 + 2 * dim) * size)
             for d in batch:
+                if any(d is r for r in resub):
+                    continue
                 # a design re-sampled after a transient failure legitimately has a new vector: the neighbours
                 # must surround the vector that was finally evaluated and stored
                 designs.append((d, list(d.vector) if prob.h.nfault > f0 else orig[id(d)]))
@@ -150,10 +162,11 @@ def gradient(args):
 def configs(tier):
     out = []
 
-    def wc(dim, o, batches, faults=0, container=None):
-        out.append({'name': 'worst-dim%d-o%d-%s%s%s' % (dim, o, 'x'.join(map(str, batches)), '-faults%d' % faults if faults else '',
-                                                        '-' + container if container else ''),
-                    'task': 'worst_case', 'args': {'dim': dim, 'o': o, 'batches': batches, 'faults': faults, 'container': container},
+    def wc(dim, o, batches, faults=0, container=None, resubmit=False):
+        out.append({'name': 'worst-dim%d-o%d-%s%s%s%s' % (dim, o, 'x'.join(map(str, batches)), '-faults%d' % faults if faults else '',
+                                                          '-' + container if container else '', '-resubmit' if resubmit else ''),
+                    'task': 'worst_case', 'args': {'dim': dim, 'o': o, 'batches': batches, 'faults': faults, 'container': container,
+                                                   'resubmit': resubmit},
                     'weight': sum(batches) * dim * (20 if faults else 1), 'split': 32 if faults else None, 'engine': {'validate': 10}})
 
     def gr(dim, o, batches, container=None):
@@ -168,6 +181,8 @@ def configs(tier):
     gr(2, 1, (2, 2))
     gr(2, 2, (1, 2))
     wc(2, 1, (2, 1), container='ndarray')
+    wc(1, 1, (1, 1, 1), resubmit=True)
+    wc(2, 2, (2, 1), resubmit=True)
     gr(2, 1, (2, 1), container='ndarray')
     if tier == 'thorough':
         wc(3, 1, (2, 2, 2))
